@@ -138,11 +138,45 @@ def tally(res):
     return t
 
 
+def undefined_names_in_rule_sources():
+    """lint of the checker itself: a global name that a rule function reads but no module defines would end a rule with a
+    NameError the first time a rewritten tree takes it down that path (it happened: an `AnchorMissing` that was never imported
+    turned an honest "can not decide" into a traceback).  -> list of "<file>: <name> in <function>" """
+    import builtins
+    import glob
+    import importlib
+    import symtable
+    out = []
+    for path in sorted(glob.glob(os.path.join(VERIF, 'sa', 'rules', '*.py'))) + sorted(glob.glob(os.path.join(VERIF, 'sa', '*.py'))):
+        modname = path[len(VERIF) + 1:-3].replace(os.sep, '.')
+        try:
+            mod = importlib.import_module(modname)
+            text = open(path).read()
+            tab = symtable.symtable(text, path, 'exec')
+        except Exception as e:       # pragma: no cover
+            out.append(f'{path}: can not be loaded: {e!r}')
+            continue
+        guarded = {w.split("'")[1] for w in text.split() if w.startswith("'") and w.count("'") >= 2 and " in globals()" in text and f"{w} in globals()" in text}
+
+        def walk(t):
+            for sym in t.get_symbols():
+                n = sym.get_name()
+                if sym.is_global() and sym.is_referenced() and not sym.is_assigned() and not hasattr(mod, n) and not hasattr(builtins, n) and n not in guarded:
+                    out.append(f'{path}: {n} in {t.get_name()}')
+            for c in t.get_children():
+                walk(c)
+        walk(tab)
+    return out
+
+
 def run_for_property(prop):
     """called by the thorough tier after the property held on /repo; returns exit code (0 or 2)"""
     res = run({prop})
     t = tally(res)
     print(f'SELFTEST {prop} {t}')
+    undefined = undefined_names_in_rule_sources()
+    for u in undefined:
+        print(f'SELFTEST-FAIL undefined name in the checker: {u}')
     bad = [r for r in res if r['verdict'] in ('missed', 'alarm')]
     for r in bad:
         print(f'SELFTEST-FAIL {r["id"]} ({r["kind"]}): {r.get("why", "")[:700]}')
@@ -158,7 +192,7 @@ def run_for_property(prop):
     except Exception as e:  # pragma: no cover
         print(f'ANALYSIS-ERROR can not update evidence: {e!r}')
         return 2
-    return 2 if bad else 0
+    return 2 if (bad or undefined) else 0
 
 
 if __name__ == '__main__':
@@ -168,3 +202,5 @@ if __name__ == '__main__':
         if r['verdict'] != 'ok':
             print(r['id'], r['kind'], r['verdict'], r.get('why', '')[:900])
     print(tally(res))
+    for u in undefined_names_in_rule_sources():
+        print('undefined name in the checker:', u)
